@@ -278,6 +278,9 @@ func streamEngine(seed uint64, n int, driver, corpus, dump, variant string) (*Su
 	if variant == "pre" {
 		prePtrProbe(sum)
 	}
+	if variant == "api" {
+		likeProbe(sum)
+	}
 	models, err := runDriver(driver, lines)
 	if err != nil {
 		return nil, err
@@ -351,6 +354,10 @@ func streamEngine(seed uint64, n int, driver, corpus, dump, variant string) (*Su
 		}
 		if engineLine != modelLine {
 			sum.Hist["engine_differs_from_spec"]++
+		}
+		if iv.panic && !mv.panic {
+			// direct oracle (C06): the execution panicked on input data where the reference semantics returns a result
+			sum.addViolation("C06", Mismatch{Case: lines[i], Impl: implLine + " " + impls[i].Panic, Model: modelLine, What: "the execution panicked: " + impls[i].Panic, Stream: "engine", Variant: variant, Seed: seed, Index: i})
 		}
 		for _, prop := range engineProps {
 			ip, mp := iv.project(prop), mv.project(prop)
